@@ -46,7 +46,8 @@ def live(seed, k, tier):
                      [{"t": "pUSD", "amt": 3000 + h, "conv": "PEG"}, {"t": "pUSD", "amt": 1000, "to": [(users[0], 1000)]}],
                      [{"t": "pUSD", "amt": 1500, "conv": "pXBT"}, {"t": "pUSD", "amt": 2500 + h, "conv": "PEG"}],
                      [{"t": "pUSD", "amt": 2600 + h, "conv": "PEG"}, {"t": "pUSD", "amt": 1500, "conv": "pXBT"}]]
-            s.entry(h, u, mixes[h % 4])
+            for j, mx in enumerate(mixes):
+                s.entry(h, users[4 + (h + j) % 4], mx)
         if h >= pip + 4:
             # directed probes (own batches, small amounts, funded): into / out of the asset whose average is unavailable, and a control pair
             for (u, src, dst) in ((users[0], "pUSD", "pXBT"), (users[1], "pXBT", "pUSD"), (users[2], "PEG", "pXBT"), (users[3], "pUSD", "pDCR" if h < B else "PEG")):
